@@ -1,3 +1,4 @@
+import Proofs.DagComplete
 import Proofs.LedgerDag
 import Proofs.Conservation
 import Properties.C03
@@ -63,5 +64,36 @@ theorem weight_is_max_plus_one (l r : UInt64) (h : l.toNat < 1844674407370955161
 /-- Non-vacuity: the reachable example ledger has the edge genesis → v1 and satisfies all of the above. -/
 example : (1, 3) ∈ Props.C03.b2.edges ∧ Props.C03.b2.getVertex 3 = some Props.C03.v1 := by
   constructor <;> decide
+
+/-- **Every declared parent that is still live has an edge; one that is not live has been checkpointed.**
+For every reachable ledger (any history of proposals, gossip, orphan retries, trusted-node changes and
+truncations at any cut) and every live vertex that declares parents (left parent ≠ the all-zero hash, Go's
+`addedHash` sentinel — only the genesis vertex has it): each declared parent is either in the live DAG with
+an edge to the vertex, or no longer live and present in the checkpointed storage. -/
+theorem declared_parents_linked_or_checkpointed {b : Book} (r : Reachable b) (v : Vertex) (hv : v ∈ b.verts) (hl : v.left ≠ 0) :
+    ∀ p ∈ [v.left, v.right],
+      (b.hasVertex p = true ∧ (p, v.hash) ∈ b.edges) ∨ (b.hasVertex p = false ∧ b.cpHasVertex p = true) := by
+  intro p hp
+  have := r.dagComplete v hv hl
+  simp only [List.mem_cons, List.mem_singleton, List.not_mem_nil, or_false] at hp
+  rcases hp with rfl | rfl
+  · exact this.1
+  · exact this.2
+
+/-- together with `edges_only_from_declared_live_parents`: the edge set of the live DAG is exactly
+{(p, v) | v live, p a declared parent of v, p live} for vertices that declare parents -/
+theorem edges_exact {b : Book} (r : Reachable b) (v : Vertex) (hv : v ∈ b.verts) (hl : v.left ≠ 0) (p : Hash)
+    (hp : p = v.left ∨ p = v.right) : (p, v.hash) ∈ b.edges ↔ b.hasVertex p = true := by
+  have h := declared_parents_linked_or_checkpointed r v hv hl p (by
+    rcases hp with rfl | rfl <;> simp)
+  constructor
+  · intro he
+    rcases h with ⟨h1, _⟩ | ⟨h1, _⟩
+    · exact h1
+    · exact (edges_only_from_declared_live_parents r p v.hash he).1
+  · intro hlive
+    rcases h with ⟨_, h2⟩ | ⟨h1, _⟩
+    · exact h2
+    · rw [hlive] at h1; cases h1
 
 end Props.C09
